@@ -18,7 +18,7 @@ import re
 
 from ..astutil import kids, strip, walk, callee_ref, render, is_null_expr, int_value, loc
 from ..frontend import AnalysisBroken
-from ..vals import trivial_return
+from ..vals import trivial_return, _may_expand
 
 MAX_STATES = 400
 MAX_LOOP_ITERS = 60
@@ -252,7 +252,7 @@ class Flow:
             if nm is not None and depth < 8:
                 f = self.m.funcs.get(self.m.resolve(self.cur_unit(), nm))
                 if f is not None:
-                    r = trivial_return(f)
+                    r = trivial_return(f) if _may_expand(f.name) else None
                     if r is not None and len(f.params) == len(args):
                         s2 = State(dict(s.env), s.d)
                         for p, a in zip(f.params, args):
@@ -333,11 +333,12 @@ class Flow:
             o = Out([])
             ch = kids(n)
             if ch:
-                for s, v in self.value(ch[0], S):
-                    if len(self.stack) > 1:
-                        s = s.copy()
-                        self.dom.ret_value(self, s, ch[0], self.cur_func())
-                    o.r.append((s, n, v))
+                for Sx, arm in self.split_arms(ch[0], S):
+                    for s, v in self.value(arm, Sx):
+                        if len(self.stack) > 1:
+                            s = s.copy()
+                            self.dom.ret_value(self, s, arm, self.cur_func())
+                        o.r.append((s, n, v))
             else:
                 o.r = [(s, n, None) for s in S]
             return o
